@@ -107,6 +107,9 @@ def python_text(rnd, elems, scouts=0):
         imports = ["from __future__ import annotations", "from dataclasses import dataclass, field"] + imports
         body = ["", "", "@dataclass", "class Site:", "    name: str = 'verif'", "    tags: list[str] = field(default_factory=list)", "", "",
                 "SITE = Site(tags=['a'])"] + body
+    if rnd.random() < 0.3:
+        # a configuration that knows where it lives (to read a settings file next to itself)
+        imports = imports + ["import os", "HERE = os.path.dirname(os.path.abspath(__file__))", "assert os.path.isdir(HERE) and os.path.samefile(__spec__.origin, __file__)"]
     if scouts:
         # temporary helper services: defined, waited for, dropped again - then just as many real services are defined
         imports = imports + ["from vplug import VSvcScout", "import gc"]
@@ -269,6 +272,19 @@ def gen_case(rnd, spec):
         elif defect == "missing_file":
             case["missing_file"] = True
         case["defect"] = defect
+    if fmt == "yaml" and case["kind"] == "valid" and not slow and not slow_asyncio and forced is None and rnd.random() < 0.2:
+        # a stage written once and used twice: an anchored __type__ element and an alias of it - two objects, two services
+        stages = [e for e in elems[:-1] if e[0] in ("VSvcDeco", "VSvcTrioDeco", "VSvcThread")]
+        lines = text.splitlines()
+        if stages:
+            e = rnd.choice(stages)
+            hits = [i for i, line in enumerate(lines) if line.startswith("  - ") and ("label: %s," % e[1] in line or "label: %s}" % e[1] in line)]
+            if len(hits) == 1:
+                items = ", ".join("%s: %s" % kv for kv in e[2].items())
+                lines[hits[0]] = "  - &again {__type__: vplug.%s, %s}" % (e[0], items)
+                lines.insert(hits[0] + 1, "  - *again")
+                text = "\n".join(lines) + "\n"
+                case["twice"] = e[1]
     if fmt == "yaml" and case["kind"] == "valid" and (rnd.random() < 0.15 or (spec["case_index"] == 4 and spec["shard"] in (0, 1))):
         # a file of a realistic size: commented, longer than any read buffer
         pad = "".join("# %s setting %d: %s\n" % (rnd.choice(["site", "pool", "legacy"]), i, "x" * rnd.randint(20, 70)) for i in range(rnd.choice([120, 400])))
@@ -330,6 +346,16 @@ def execute(case, result):
             return problems
         for lb in labels:
             ctors = run.of("ctor", lb)
+            if lb == case.get("twice"):
+                # configured once, used twice: two objects, each a service of its own (their beats interleave under one label)
+                result.count("yaml_stages_written_once_and_used_twice")
+                if len(ctors) != 2 or len(run.of("run", lb)) != 2:
+                    bad("stage %s is used twice (anchor and alias): constructed %d times, run started %d times" % (lb, len(ctors), len(run.of("run", lb))))
+                first_beats = [e for e in run.of("beat", lb) if e["n"] == 0]
+                if case["signal_after"] >= 0.4 and len(first_beats) != 2:
+                    # (the daemon counts as ready when the first of the two has beaten 5 times; the stop comes >= 0.4 s later)
+                    bad("stage %s is used twice but %d of the two services ever did anything" % (lb, len(first_beats)))
+                continue
             if len(ctors) != 1:
                 bad("service %s constructed %d times" % (lb, len(ctors)))
             elif not ctors[0]["loop_running"]:
